@@ -302,7 +302,22 @@ impl Scene {
             safety: self.safety.build(),
         };
         let base_mesh = base_mesh.map(|(m, p)| (m, iso_from_f32(&iso_to_f32(&p))));
-        Built { robot: KinematicsWithShape { kinematics, body }, link_mesh, tool_mesh, base_mesh, env_mesh, base_iso }
+        // through a public constructor (the struct may have fields beyond the two public ones), then the public fields are set
+        let dummy = || MeshSpec { lo: [-0.01; 3], hi: [0.01; 3], fan: 0 }.trimesh();
+        let mut robot = KinematicsWithShape::with_safety(
+            params(r),
+            Constraints::new([-3.0; 6], [3.0; 6], 0.0),
+            std::array::from_fn(|_| dummy()),
+            dummy(),
+            nalgebra::Isometry3::identity(),
+            dummy(),
+            nalgebra::Isometry3::identity(),
+            Vec::new(),
+            SafetyDistances::standard(CheckMode::FirstCollisionOnly),
+        );
+        robot.kinematics = kinematics;
+        robot.body = body;
+        Built { robot, link_mesh, tool_mesh, base_mesh, env_mesh, base_iso }
     }
 }
 
